@@ -6,8 +6,10 @@
       file) -> if either is absent: Lock -> reload -> (still absent) newAccount at the CA ->
       saveAccount = storeTx [reg; key] with rollback (Delete reg, error ignored) -> Unlock;
       then the order; when the CA answers accountDoesNotExist on the first attempt:
-      deleteAccountLocally (Delete reg, Delete key, of the directory in use, no lock), a second
-      [newACMEClientWithAccount], and one retry with the recreated account.
+      deleteAccountLocallyIfCurrent = Lock (the registration lock) -> load the stored account
+      (reg file, key file) -> only if it is complete and its Location is the rejected account's:
+      deleteAccountLocally (Delete reg, Delete key, of the directory in use) -> Unlock; then a
+      second [newACMEClientWithAccount], and one retry with the recreated account.
     * any number of such threads (instances / goroutines / restarts), on any number of CAs
       ([ca] = index: 0 production, 1 test, ...) sharing one storage and one registration lock
       (the lock name depends on the contact only, not on the CA);
@@ -35,6 +37,7 @@ Definition empty_slot := Slot None None.
 Definition full (sl : slot) : bool :=
   match s_reg sl, s_key sl with Some _, Some _ => true | _, _ => false end.
 Definition has_reg (sl : slot) : bool := match s_reg sl with Some _ => true | None => false end.
+Definition has_key (sl : slot) : bool := match s_key sl with Some _ => true | None => false end.
 
 (** an account in memory: Location (from the reg file) and private key (from the key file) *)
 Record macct := MA { m_loc : acct; m_key : acct }.
@@ -50,8 +53,12 @@ Inductive pc :=
 | Rollback (a : acct)                (* Store key failed: about to Delete the reg file (error ignored) *)
 | Unlock (res : option macct)        (* deferred releaseLock; then continue with res *)
 | Order (m : macct) (attempt : nat)  (* ObtainCertificate with account m *)
-| DelReg (m : macct)                 (* CA said m does not exist: deleteAccountLocally, reg file *)
+| DWantLock (m : macct)              (* CA said m does not exist: deleteAccountLocallyIfCurrent, in Storage.Lock *)
+| DLoadReg (m : macct)               (* lock held: about to Load the reg file *)
+| DLoadKey (m : macct) (r : acct)    (* reg file held account r; about to Load the key file *)
+| DelReg (m : macct)                 (* the stored account is m: deleteAccountLocally, reg file *)
 | DelKey (m : macct)
+| DUnlock (ok : bool)                (* deferred releaseLock; ok: go on to recreate the account, else: error *)
 | Done (res : option macct).         (* Some m: certificate issued with account m; None: error *)
 
 Record thread := Thread { t_ca : ca; t_pc : pc; t_att : nat }.
@@ -163,7 +170,10 @@ Definition op_step (s : state) (t : tid) (fault : bool) : option state :=
       if fault then Some (set_pc s t (Unlock None))
       else Some (set_pc (set_slot s c (Slot None (s_key sl))) t (Unlock None))
   | Unlock res =>
-      if fault then None
+      (* a failed Unlock is logged and otherwise ignored: the thread goes on, the lock stays
+         (until the Locker's staleness rule hands it on, which is not modelled) *)
+      if fault
+      then Some (set_pc s t (match res with Some m => Order m (t_att th) | None => Done None end))
       else Some (set_pc (set_lock s None) t
                         (match res with Some m => Order m (t_att th) | None => Done None end))
   | Order m i =>
@@ -171,13 +181,38 @@ Definition op_step (s : state) (t : tid) (fault : bool) : option state :=
       else if live s c (m_loc m) then
              (if Nat.eqb (m_loc m) (m_key m) then Some (set_pc s t (Done (Some m)))
               else Some (set_pc s t (Done None)))
-           else (if Nat.eqb i 0 then Some (set_pc s t (DelReg m)) else Some (set_pc s t (Done None)))
-  | DelReg m =>
+           else (if Nat.eqb i 0 then Some (set_pc s t (DWantLock m)) else Some (set_pc s t (Done None)))
+  | DWantLock m =>
       if fault then Some (set_pc s t (Done None))
+      else match lock s with
+           | None => Some (set_pc (set_lock s (Some t)) t (DLoadReg m))
+           | Some _ => None
+           end
+  | DLoadReg m =>
+      if fault then Some (set_pc s t (DUnlock false))
+      else match s_reg sl with
+           | None => Some (set_pc s t (DUnlock true))          (* fs.ErrNotExist: already deleted *)
+           | Some r => Some (set_pc s t (DLoadKey m r))
+           end
+  | DLoadKey m r =>
+      if fault then Some (set_pc s t (DUnlock false))
+      else match s_key sl with
+           | None => Some (set_pc s t (DUnlock true))
+           | Some _ =>
+               if Nat.eqb r (m_loc m) then Some (set_pc s t (DelReg m))
+               else Some (set_pc s t (DUnlock true))           (* already replaced by a newer account *)
+           end
+  | DelReg m =>
+      if fault then Some (set_pc s t (DUnlock false))
       else Some (set_pc (inc_deletes (set_slot s c (Slot None (s_key sl))) c) t (DelKey m))
   | DelKey m =>
-      if fault then Some (set_pc s t (Done None))
-      else Some (set_pc (set_att (inc_deletes (set_slot s c (Slot (s_reg sl) None)) c) t 1) t (LoadReg false))
+      if fault then Some (set_pc s t (DUnlock false))
+      else Some (set_pc (inc_deletes (set_slot s c (Slot (s_reg sl) None)) c) t (DUnlock true))
+  | DUnlock ok =>
+      if fault
+      then (if ok then Some (set_pc (set_att s t 1) t (LoadReg false)) else Some (set_pc s t (Done None)))
+      else (if ok then Some (set_pc (set_att (set_lock s None) t 1) t (LoadReg false))
+            else Some (set_pc (set_lock s None) t (Done None)))
   end.
 
 (** a crash inside the register..save window is counted; a lock held by the crashed thread is
@@ -215,6 +250,19 @@ Fixpoint run (s : state) (ls : list label) : option state :=
   end.
 
 Definition reachable (s : state) : Prop := exists ls, run init ls = Some s.
+
+(** an Unlock that fails (the lock stays held although its holder has left the locked region) *)
+Definition unlock_fault (s : state) (l : label) : bool :=
+  match l with
+  | Op t true => match t_pc (thr s t) with Unlock _ | DUnlock _ => true | _ => false end
+  | _ => false
+  end.
+Fixpoint unlock_faults (s : state) (ls : list label) : nat :=
+  match ls with
+  | [] => 0
+  | l :: r => (if unlock_fault s l then 1 else 0) +
+              match step s l with Some s' => unlock_faults s' r | None => 0 end
+  end.
 
 (** sequential schedules: a thread takes steps only while every other thread is idle or
     finished (one doIssue at a time; restarts, faults, crashes and resets allowed) *)
